@@ -356,7 +356,15 @@ impl<'r, 's> Run<'r, 's> {
                             self.rep.float_bit_identical += 1;
                             continue;
                         }
-                        let tol = k * self.spec.eps * (self.spec.scale)(&self.spec.pool[q], j, *a);
+                        let sc = (self.spec.scale)(&self.spec.pool[q], j, *a);
+                        if !(sc < f64::MAX) && (!a.is_finite() || !b.is_finite()) {
+                            // operand magnitude beyond the float range: an intermediate sum may overflow
+                            // in one summation order and not in another
+                            indeterminate = true;
+                            self.rep.bump("float_cells_overflow_order_dependent_indeterminate", 1);
+                            continue;
+                        }
+                        let tol = k * self.spec.eps * sc;
                         let dev = (a - b).abs();
                         if dev.is_finite() && dev <= tol {
                             let r = dev / tol;
